@@ -66,7 +66,10 @@ def shell_case(args):
     try:
         open(os.path.join(d, "HP1"), "w").write(p1 + "\n")
         run = lambda k: 'mkdir "$D/%s"; ( cd "$D/%s" && %s </dev/null >out 2>/dev/null )\n' % (k, k, CALL)
-        child = lambda k, sh: ('mkdir "$D/%s"; ( cd "$D/%s" && %s -c \'%s\' </dev/null >out 2>/dev/null )\n'
+        # the child applies the redirections itself, in a subshell, exactly as the parent does for its own call
+        # (brush sends an external command's `>&2` to stdout when fd 2 is the inherited process stderr — a
+        # descriptor matter outside this property — so both calls must run under shell-made redirections)
+        child = lambda k, sh: ('mkdir "$D/%s"; ( cd "$D/%s" && %s -c \'( %s </dev/null >out 2>/dev/null )\' )\n'
                                % (k, k, sh, CALL))
         bs = "D='%s'\n" % d
         brush_child = "'%s' --norc --noprofile --no-config" % lib.BRUSH
